@@ -1,15 +1,21 @@
-import AmaranthVerif.Proofs.MemoryValues
+import AmaranthVerif.Proofs.MemoryCtor
 
 /-!
 # C11 — memories behave as arrays of rows under any port configuration
 
 `Mem.step` (Model/Memory.lean: the write queue, the committed-row read, the transparency patch-up, the
 combinational read process, the testbench row access of the Python simulator) against `MemRows.step`
-(Spec/MemoryRows.lean: an array of rows of bits). Every theorem is for **all** configurations `c : Cfg`
-(any row shape and width, any depth incl. 0, 1 and non-powers of two, any number of read and write ports
-in any domains with any transparency lists and granularities), all states, all input valuations and all
-events (any set of clocks changing at once, any reset levels), and the run theorem for all finite sequences
-of them (induction, no bound).
+(Spec/MemoryRows.lean: an array of rows of bits). Every theorem is for **all** configurations `c : Cfg` that
+the constructors can produce (`WF c`: any row shape and width, any depth incl. 0, 1 and non-powers of two, any
+number of read and write ports in any domains, any granularity, any transparency list *the constructor accepts*),
+all states, all input valuations and all events (any set of clocks changing at once, any reset levels), and the
+run theorem for all finite sequences of them (induction, no bound).
+
+Theorems of this file: `ctor_covers`, `ctor_wf`, `inv_init`, `inv_step`, `write_granules`, `write_data_bit`,
+`oob_write_noop`, `collision_last_wins`, `async_read`, `async_read_beyond_depth`, `sync_read_old_data`,
+`transparent_read`, `read_beyond_depth`, `read_hold_when_disabled`, `old_reset_clears_read_port`,
+`old_differs_only_under_reset`, `row_access_same_storage`, `row_access_out_of_range`, `model_refines_rows`,
+`values_in_shape`, `observed_values_are_rows`, `model_refines_rows_values`, `model_refines_rows_run`.
 
 Vocabulary. `ibit v i` is bit `i` of the Python integer `v`; a row of the Spec is `toBits width v`.
 `activeWrite c clk inp e k = some w` says that write port `k` has an active edge of its clock at event `e`
@@ -17,17 +23,36 @@ Vocabulary. `ibit v i` is bit `i` of the Python integer `v`; a row of the Spec i
 says that it addresses row `a` and the enable bit of the granule containing bit `i` is set.
 
 Hypotheses, all explicit:
-* `WF c`        — the enable bits of every write port cover the row (`enw * gran ≥ width`; what the constructors
-                  produce, see `ctor_covers`);
+* `WF c`        — what the constructors guarantee (`ctor_wf` proves it for everything `mkCfg` returns):
+                  the enable bits of every write port cover the row (`enw * gran ≥ width`), and every entry of a
+                  read port's transparency list is a write port of this memory **and of the read port's domain**.
+                  The model can be *given* a configuration that violates this (a transparency list naming a port of
+                  another domain); the real constructor raises `ValueError` for it (`readPortCheck`, compared with
+                  the code by the check's constructor stream), so no theorem speaks about such a configuration;
 * `Inv c s`     — the state has `depth` rows and one register per read port (`inv_init`, `inv_step`);
 * `InputsOk`    — address signals hold `ceil_log2(depth)`-bit values;
-* `NoCollision` — no two different write ports hit the same bit of the same row at one event (the property's
-                  exclusion; `collision_last_wins` says what the simulator does otherwise);
+* `NoCollision` — no two different write ports hit the same bit of the same row at one event. This is **not** an
+                  exclusion the property text makes (it only leaves reads beyond the depth open). It is needed
+                  because "replaces the enabled granules with the new data" has no single reading when two ports
+                  write different data to one granule at one edge: there is no "the new data". The Spec leaves
+                  that case open (its `newBit` deliberately takes the other port than the simulator, so nothing can
+                  be proved about it by accident), the refinement theorems assume it away, and
+                  `collision_last_wins` says what the simulator does there for ports of one domain;
+* `OneDomain`   — (only `collision_last_wins`) all write ports with an active edge at the event are of one domain.
+                  Colliding writes of ports of *different* domains at coincident edges are unspecified: the real
+                  result depends on the order in which the simulator runs the two domain processes (C08), the
+                  library documents it as undefined, the model fixes one order (port index), and the check does
+                  not compare those rows;
 * `ReadsInRange`— every capturing synchronous read port addresses an existing row (the property leaves reads
                   beyond the depth unspecified; `read_beyond_depth` says what the simulator gives).
 
-Reset. In the repaired simulator (`step`) no reset signal has any influence on a memory (`reset_has_no_effect`);
-`stepOld` is the simulator as found (finding F22), refuted against the Spec by `old_reset_clears_read_port`.
+Reset. The repaired simulator (`step`) never consults a reset signal; that is true by construction of the model
+(`Mem.step_ignores_reset`, a lemma, not a property theorem) and is tied to the code by the check's walks with
+reset pulses. `stepOld` is the simulator as found (finding F22), refuted against the Spec by
+`old_reset_clears_read_port`; `old_differs_only_under_reset` says that it differs from `step` nowhere else.
+
+Testbench row access. `mem[i]` exists for `0 ≤ i < depth` only (`MemoryData.__getitem__` raises `IndexError`
+otherwise — also for negative `i`); `tbGet` / `tbSet` include that lookup.
 
 The clause "the simulator and the emitted RTLIL agree wherever the RTLIL is defined" is decided by C04's check.
 -/
@@ -55,94 +80,67 @@ example : (step exCfg (init exCfg) exInp exEv).rows = [5, 10, 7] := by decide
 -- read port 0 (transparent) sees the new upper granule, read port 2 the old row
 example : (step exCfg (init exCfg) exInp exEv).rdata = [10, 0, 6] := by decide
 
-theorem exWF : WF exCfg := ⟨by decide⟩
-theorem exInputsOk : InputsOk exCfg exInp := by
-  constructor <;> intro k <;>
-    (rcases k with _ | _ | _ | _ | k <;> simp [exInp, exCfg, Cfg.abits, ceilLog2, bitLength, Nat.log2] <;> decide)
+/-- the example configuration is what the constructor calls return -/
+theorem exCfg_ctor :
+    mkCfg (.plain ⟨4, false⟩) 3 [5, 6, 7] [⟨true, .sync⟩] [⟨some 0, .int 2⟩, ⟨some 0, .none⟩]
+      [⟨some 0, [0]⟩, ⟨none, []⟩, ⟨some 0, []⟩] = .ok exCfg := rfl
+theorem exInputsOk : InputsOk exCfg exInp := inputsOk_of_check _ _ (by decide +kernel)
 
-/-! ## Invariant -/
-
-theorem inv_init (c : Cfg) (h1 : c.init.length = c.depth) (h2 : c.rdInit.length = c.rds.length) :
-    Inv c (init c) := ⟨h1, h2⟩
-
-theorem inv_step (c : Cfg) (s : Mem.State) (inp : Inputs) (e : Event) (h : Inv c s) : Inv c (step c s inp e) :=
-  Mem.inv_step c s inp e h
-
-example : Inv exCfg (init exCfg) := inv_init exCfg rfl rfl
+/-! ## Which configurations exist; invariant -/
 
 /-- the constructors of `lib.memory` / `hdl._mem` only produce write ports whose enable bits cover the row:
 `len(en) * _granularity ≥ width` whenever `WritePort.Signature` accepts the granularity -/
 theorem ctor_covers (k : RowKind) (g : GranArg) (n : Nat) (h : enWidth k g = .ok n) :
-    k.width ≤ n * granBits k.width n := by
-  unfold granBits
-  by_cases hw : k.width = 0
-  · rw [hw]; exact Nat.zero_le _
-  rw [if_neg hw]
-  cases g with
-  | none =>
-    simp only [enWidth] at h
-    cases h
-    simp
-  | other => simp [enWidth] at h
-  | int g =>
-    cases k with
-    | plain s =>
-      simp only [enWidth, RowKind.width] at h hw ⊢
-      by_cases h1 : g < 0
-      · simp [h1] at h
-      by_cases h2 : s.signed = true
-      · simp [h1, h2] at h
-      by_cases h3 : g = 0
-      · simp [h2, hw, h3] at h
-      by_cases h4 : s.width % g.toNat = 0
-      · simp [h1, h2, hw, h3, h4] at h
-        subst h
-        have hq := Nat.div_add_mod s.width g.toNat
-        rw [h4, Nat.add_zero] at hq
-        have hqpos : 0 < s.width / g.toNat := by
-          rcases Nat.eq_zero_or_pos (s.width / g.toNat) with h0 | h0
-          · rw [h0, Nat.mul_zero] at hq; omega
-          · exact h0
-        have : s.width / (s.width / g.toNat) = g.toNat := by
-          conv => lhs; lhs; rw [← hq]
-          rw [Nat.mul_comm, Nat.mul_div_cancel_left _ hqpos]
-        rw [this, Nat.mul_comm, hq]
-        exact Nat.le_refl _
-      · simp [h1, h2, hw, h3, h4] at h
-    | array ew len =>
-      simp only [enWidth, RowKind.width] at h hw ⊢
-      by_cases h1 : g < 0
-      · simp [h1] at h
-      by_cases h2 : len = 0
-      · rw [h2, Nat.mul_zero] at hw; exact absurd rfl hw
-      by_cases h3 : g = 0
-      · simp [h2, h3] at h
-      by_cases h4 : len % g.toNat = 0
-      · simp [h1, h2, h3, h4] at h
-        subst h
-        have hq := Nat.div_add_mod len g.toNat
-        rw [h4, Nat.add_zero] at hq
-        have hqpos : 0 < len / g.toNat := by
-          rcases Nat.eq_zero_or_pos (len / g.toNat) with h0 | h0
-          · rw [h0, Nat.mul_zero] at hq; omega
-          · exact h0
-        have : ew * len / (len / g.toNat) = ew * g.toNat := by
-          conv => lhs; lhs; rw [← hq]
-          rw [← Nat.mul_assoc, Nat.mul_div_cancel _ hqpos]
-        rw [this]
-        calc ew * len = ew * (g.toNat * (len / g.toNat)) := by rw [hq]
-          _ = len / g.toNat * (ew * g.toNat) := by
-            rw [← Nat.mul_assoc, Nat.mul_comm]
-          _ ≤ _ := Nat.le_refl _
-      · simp [h1, h2, h3, h4] at h
-    | castable w =>
-      simp only [enWidth] at h
-      by_cases h1 : g < 0 <;> simp [h1] at h
+    k.width ≤ n * granBits k.width n :=
+  enWidth_covers k g n h
 
 example : enWidth (.plain ⟨12, false⟩) (.int 3) = .ok 4 := rfl
 example : granBits 12 4 = 3 := by decide
 example : enWidth (.array 3 6) (.int 2) = .ok 3 := rfl
 example : granBits 18 3 = 6 := by decide
+
+/-- **ctor_wf.** Whatever `Memory(shape, depth, init)`, `write_port(domain, granularity)` … and
+`read_port(domain, transparent_for)` … return without raising is a well-formed configuration: the enable bits of
+every write port cover the row, and every transparency list names write ports of this memory and of the read
+port's own domain only (`mkCfg` runs `initCheck`, `enWidth`, `writePortCheck`'s rule and `readPortCheck`). -/
+theorem ctor_wf (kd : RowKind) (depth : Nat) (initRows : List Int) (doms : List DomCfg) (wrArgs : List WrArg)
+    (rdArgs : List RdCfg) (c : Cfg) (h : mkCfg kd depth initRows doms wrArgs rdArgs = .ok c) : WF c :=
+  mkCfg_wf kd depth initRows doms wrArgs rdArgs c h
+
+/-- the transparency rule by itself: `ReadPort.__init__` accepts the read ports `rds` over the write ports `wrs`
+iff every entry of every transparency list is an existing write port of the read port's own domain (so: none
+for an asynchronous port) -/
+theorem ctor_transparency (wrs : List WrCfg) (rds : List RdCfg) :
+    readPortsCheck wrs rds = .ok () ↔
+      ∀ k < rds.length, ∀ j ∈ (rds.getD k default).transp,
+        j < wrs.length ∧ (rds.getD k default).dom = some (wrs.getD j default).dom :=
+  readPortsCheck_ok wrs rds
+
+theorem exWF : WF exCfg := ctor_wf _ _ _ _ _ _ _ exCfg_ctor
+
+-- a read port of domain 1 asking to be transparent for a write port of domain 0 is rejected (as is an asynchronous
+-- port with a transparency list, an index that is not a write port of this memory, an asynchronous write port)
+example : mkCfg (.plain ⟨4, false⟩) 3 [] [⟨true, .sync⟩, ⟨true, .sync⟩] [⟨some 0, .none⟩] [⟨some 1, [0]⟩]
+    = .error "ValueError" := rfl
+example : mkCfg (.plain ⟨4, false⟩) 3 [] [⟨true, .sync⟩] [⟨some 0, .none⟩] [⟨none, [0]⟩] = .error "ValueError" := rfl
+example : mkCfg (.plain ⟨4, false⟩) 3 [] [⟨true, .sync⟩] [⟨some 0, .none⟩] [⟨some 0, [1]⟩] = .error "ValueError" := rfl
+example : mkCfg (.plain ⟨4, false⟩) 3 [] [⟨true, .sync⟩] [⟨none, .none⟩] [] = .error "ValueError" := rfl
+example : mkCfg (.plain ⟨4, false⟩) 3 [1, 2, 3, 4] [] [] [] = .error "ValueError" := rfl
+
+/-- **inv_init.** The initial state of every configuration the constructors return has `depth` rows (the declared
+ones, padded with zeros) and one register per read port. -/
+theorem inv_init (kd : RowKind) (depth : Nat) (initRows : List Int) (doms : List DomCfg) (wrArgs : List WrArg)
+    (rdArgs : List RdCfg) (c : Cfg) (h : mkCfg kd depth initRows doms wrArgs rdArgs = .ok c) : Inv c (init c) :=
+  mkCfg_inv kd depth initRows doms wrArgs rdArgs c h
+
+theorem inv_step (c : Cfg) (s : Mem.State) (inp : Inputs) (e : Event) (h : Inv c s) : Inv c (step c s inp e) :=
+  Mem.inv_step c s inp e h
+
+theorem exInv : Inv exCfg (init exCfg) := inv_init _ _ _ _ _ _ _ exCfg_ctor
+
+-- partial initialisation: two declared rows of a depth-5 memory, one read port
+example : (mkCfg (.plain ⟨3, true⟩) 5 [7, 2] [⟨true, .none⟩] [] [⟨some 0, []⟩]).map (fun c => (init c).rows)
+    = .ok [-1, 2, 0, 0, 0] := rfl
 
 /-! ## Writes -/
 
@@ -232,14 +230,42 @@ theorem oob_write_noop (c : Cfg) (s : Mem.State) (inp : Inputs) (e : Event) (hin
 example : (step exCfg (init exCfg) ⟨[⟨3, 10, 3⟩, ⟨3, 15, 1⟩], [⟨1, true⟩, ⟨1, true⟩, ⟨1, true⟩]⟩ exEv).rows = [5, 6, 7] := by
   decide
 
-/-- **collision_last_wins** (what happens outside `NoCollision`). Whatever the ports do, bit `i` of row `a` after
-an event is the Spec's rule applied to the write ports in *descending* index order: of all ports hitting the
-bit, the one with the highest index decides (`MemRows.newBit` takes the first of its list). -/
+/-- **collision_last_wins** (what happens outside `NoCollision`, for ports of one domain). At an event at which all
+write ports with an active clock edge belong to one clock domain (`OneDomain`: in particular whenever only one
+domain's clock has an active edge), bit `i` of row `a` afterwards is the Spec's rule applied to the write ports in
+*descending* index order: of all ports hitting the bit, the one with the highest index decides (`MemRows.newBit`
+takes the first of its list). This is the order of the `write` calls in the domain's process.
+
+Colliding writes by ports of **different** domains at coincident edges are unspecified: the outcome of the code
+depends on the order in which the simulator runs the two domain processes, the library documents it as undefined,
+and the check does not compare such rows. (The model function orders them by port index as well; no theorem is
+claimed about that.) -/
 theorem collision_last_wins (c : Cfg) (s : Mem.State) (inp : Inputs) (e : Event) (hwf : WF c) (hin : InputsOk c inp)
+    (_hone : OneDomain c s.clk inp e)
     (a i : Nat) (ha : a < s.rows.length) (hi : i < c.shape.width) :
     ibit ((step c s inp e).rows.getD a 0) i =
       newBit ((List.range c.wrs.length).reverse.filterMap (activeWrite c s.clk inp e)) a i (ibit (s.rows.getD a 0) i) := by
   rw [step_rows_bits_spec c s inp e hwf hin a i ha hi, seqBitI_eq_newBitI_reverse, newBit_filterMap]
+
+/-- `OneDomain` holds in particular when at most one domain's clock has an active edge -/
+theorem oneDomain_of_single_edge (c : Cfg) (clk : List Bool) (inp : Inputs) (e : Event) (d : Nat)
+    (h : ∀ d', activeEdge c clk e d' = true → d' = d) : OneDomain c clk inp e := by
+  intro k1 k2 w1 w2 h1 h2
+  have key : ∀ k w, activeWrite c clk inp e k = some w → (c.wrs.getD k default).dom = d := by
+    intro k w hk
+    unfold activeWrite at hk
+    split at hk
+    · next hc => exact h _ hc.2
+    · cases hk
+  rw [key k1 w1 h1, key k2 w2 h2]
+
+-- the example configuration has one domain
+theorem exOneDomain (clk : List Bool) (inp : Inputs) (e : Event) : OneDomain exCfg clk inp e := by
+  intro k1 k2 w1 w2 h1 h2
+  have h1' := activeWrite_lt _ _ _ _ _ _ h1
+  have h2' := activeWrite_lt _ _ _ _ _ _ h2
+  have : ∀ k, k < 2 → (exCfg.wrs.getD k default).dom = 0 := by decide
+  rw [this k1 h1', this k2 h2']
 
 -- both ports write all of row 1: port 1 (data 15) wins over port 0 (data 10); the Spec's own order would give 10
 example : (step exCfg (init exCfg) ⟨[⟨1, 10, 3⟩, ⟨1, 15, 1⟩], [⟨1, false⟩, ⟨1, true⟩, ⟨1, false⟩]⟩ exEv).rows = [5, 15, 7] := by
@@ -285,7 +311,10 @@ example : (readData exCfg (step exCfg (init exCfg) exInp exEv) exInp).getD 1 0 =
 
 /-- **sync_read_old_data.** A synchronous read port that is enabled at an active edge of its clock and addresses an
 existing row captures, in every bit that no port *of its transparency list* hits at this event, the bit of the row
-as it was **before** the event — whatever the other write ports do at this event (no collision hypothesis). -/
+as it was **before** the event — whatever the other write ports do at this event (no collision hypothesis; the
+committed row is read, so the order of the domain processes does not matter either). `WF c` supplies the
+constructor's rule that the transparency list names write ports of the read port's own domain: only those are in
+the `write_vals` of the process that runs the read port. -/
 theorem sync_read_old_data (c : Cfg) (s : Mem.State) (inp : Inputs) (e : Event) (hwf : WF c) (hin : InputsOk c inp)
     (k d : Nat) (hk : k < c.rds.length) (hdom : (c.rds.getD k default).dom = some d)
     (hedge : activeEdge c s.clk e d = true) (hen : (inp.rd.getD k default).en = true)
@@ -296,7 +325,7 @@ theorem sync_read_old_data (c : Cfg) (s : Mem.State) (inp : Inputs) (e : Event) 
   rw [step_rdata_getD c s inp e k hk, hdom]
   simp only
   have hedge' : runs c s e d = true := hedge
-  rw [if_pos ⟨hedge', hen⟩, capture_bits_spec c s inp e hwf hin _ _ i hi (hin.rd k) ha]
+  rw [if_pos ⟨hedge', hen⟩, capture_bits_spec c s inp e hwf hin _ _ d i (hwf.transp_dom k d hk hdom) hi (hin.rd k) ha]
   apply seqBitI_const
   intro j hj hh
   exfalso
@@ -324,7 +353,8 @@ theorem transparent_read (c : Cfg) (s : Mem.State) (inp : Inputs) (e : Event) (h
   have hcompat := compat_of_noCollision c s.clk inp e hnc (inp.rd.getD k default).addr i hi
     (c.rds.getD k default).transp
   have hedge' : runs c s e d = true := hedge
-  rw [if_pos ⟨hedge', hen⟩, capture_bits_spec c s inp e hwf hin _ _ i hi (hin.rd k) ha,
+  rw [if_pos ⟨hedge', hen⟩,
+    capture_bits_spec c s inp e hwf hin _ _ d i (hwf.transp_dom k d hk hdom) hi (hin.rd k) ha,
     seqBitI_eq_newBitI _ _ _ _ hcompat,
     newBitI_hit _ _ _ _ j hj (by unfold sHits; rw [hw]; exact hh) hcompat]
   unfold sData; rw [hw]
@@ -334,9 +364,9 @@ example : (step exCfg (init exCfg) exInp exEv).rdata.getD 0 0 = 10 := by decide
 
 /-- what the simulator gives for a capturing read beyond the depth (unspecified by the property): zero, patched
 with the ports of the transparency list whose (equally out-of-range) address is the same -/
-theorem read_beyond_depth (c : Cfg) (s : Mem.State) (inp : Inputs) (e : Event) (r : RdCfg) (ri : RdIn)
+theorem read_beyond_depth (c : Cfg) (s : Mem.State) (wvs : List (Option WVal)) (r : RdCfg) (ri : RdIn)
     (hin : ri.addr < 2 ^ c.abits) (ha : s.rows.length ≤ ri.addr) :
-    capture c s.rows (wvals c s inp e) r ri = norm c.shape (patchAll (wvals c s inp e) ri.addr 0 r.transp) := by
+    capture c s.rows wvs r ri = norm c.shape (patchAll wvs ri.addr 0 r.transp) := by
   unfold capture memRead
   simp only [Nat.mod_eq_of_lt hin]
   rw [if_neg (by omega)]
@@ -356,11 +386,23 @@ theorem read_hold_when_disabled (c : Cfg) (s : Mem.State) (inp : Inputs) (e : Ev
 example : (step exCfg ⟨[5, 6, 7], [9, 0, 3], [false], [false]⟩
     ⟨[⟨1, 10, 2⟩, ⟨2, 15, 0⟩], [⟨1, false⟩, ⟨1, true⟩, ⟨1, false⟩]⟩ ⟨[true], [true]⟩).rdata = [9, 0, 3] := by decide
 
-/-- no reset signal has any influence on a memory: the event's reset levels and the previous ones are ignored -/
-theorem reset_has_no_effect (c : Cfg) (s : Mem.State) (inp : Inputs) (clk r1 r2 r0 : List Bool) :
-    (step c s inp ⟨clk, r1⟩).rows = (step c { s with rst := r0 } inp ⟨clk, r2⟩).rows ∧
-    (step c s inp ⟨clk, r1⟩).rdata = (step c { s with rst := r0 } inp ⟨clk, r2⟩).rdata :=
-  ⟨rfl, rfl⟩
+/-- **old_differs_only_under_reset** (the extent of F22). The simulator as found and the repaired one agree at
+every event — for every configuration, state and input — at which no domain that has a reset signal has it high
+and no asynchronous reset rises. So every theorem of this file holds for the code as found away from resets. -/
+theorem old_differs_only_under_reset (c : Cfg) (s : Mem.State) (inp : Inputs) (e : Event)
+    (h : ∀ d, rstHigh c e d = false ∧ asyncRise c s e d = false) : stepOld c s inp e = step c s inp e :=
+  stepOld_eq_step c s inp e h
+
+-- non-vacuity: an event of the example with all resets low
+example : ∀ d, rstHigh exCfg exEv d = false ∧ asyncRise exCfg (init exCfg) exEv d = false := by
+  intro d
+  have h : exEv.rst.getD d false = false := by
+    rcases d with _ | d
+    · rfl
+    · simp [exEv]
+  unfold rstHigh asyncRise
+  rw [h]
+  simp
 
 /-- the simulator as found (F22): with the domain's reset asserted, a *disabled* read port loses its output at a
 clock edge — the Spec (and the netlist, whose read ports have no reset) keeps it -/
@@ -374,33 +416,56 @@ theorem old_reset_clears_read_port :
 
 /-! ## Testbench row access -/
 
-/-- **row_access_same_storage.** `ctx.get(mem[i])` returns row `i` of the storage the ports work on — the row an
-asynchronous read port addressed to `i` shows; `ctx.set(mem[i][start:stop], v)` replaces bits `[start, stop)` of
-row `i` of that storage (and nothing else), so every later port read sees it. -/
-theorem row_access_same_storage (c : Cfg) (s : Mem.State) :
-    (∀ i, i < s.rows.length → tbRead s i = s.rows.getD i 0 ∧
-        toBits c.shape.width (tbRead s i) = asyncRead (absState c s) i) ∧
-    (∀ i start stop v, start ≤ stop →
-        absState c (tbWrite c s i start stop v) = rowWrite (absState c s) i start stop (toBits (stop - start) v)) := by
-  constructor
-  · intro i hi
-    have : tbRead s i = s.rows.getD i 0 := by unfold tbRead memRead; rw [if_pos hi]
-    refine ⟨this, ?_⟩
-    rw [this]
-    unfold asyncRead absState
+/-- **row_access_same_storage.** For an existing row (`mem[index]` with `0 ≤ index < depth`): `ctx.get(mem[index])`
+returns row `index` of the storage the ports work on — the row an asynchronous read port addressed to it shows;
+`ctx.set(mem[index][start:stop], v)` replaces bits `[start, stop)` of that row of that storage (and nothing else),
+so every later port read sees it. -/
+theorem row_access_same_storage (c : Cfg) (s : Mem.State) (hinv : Inv c s) (index : Int) (i : Nat)
+    (hi : rowIndex c.depth index = .ok i) :
+    i < c.depth ∧ index = (i : Int) ∧
+    tbGet c s index = .ok (s.rows.getD i 0) ∧
+    toBits c.shape.width (s.rows.getD i 0) = asyncRead (absState c s) i ∧
+    (∀ start stop v, start ≤ stop →
+        (tbSet c s index start stop v).map (absState c) =
+          .ok (rowWrite (absState c s) i start stop (toBits (stop - start) v))) := by
+  have hlt := ((rowIndex_ok c.depth index i).1 hi)
+  have hrow : i < s.rows.length := by rw [hinv.rows]; exact hlt.2
+  have hget : tbRead s i = s.rows.getD i 0 := by unfold tbRead memRead; rw [if_pos hrow]
+  refine ⟨hlt.2, hlt.1, ?_, ?_, ?_⟩
+  · unfold tbGet; rw [hi]; simp only; rw [hget]
+  · unfold asyncRead absState
     simp only
-    rw [getD_map_toBits _ _ _ hi]
-  · intro i start stop v hss
-    exact refine_tbWrite c s i start stop v hss
+    rw [getD_map_toBits _ _ _ hrow]
+  · intro start stop v hss
+    unfold tbSet; rw [hi]
+    simp only [Except.map]
+    rw [refine_tbWrite c s i start stop v hss]
 
-example : (tbWrite exCfg (init exCfg) 1 1 3 (-1)).rows = [5, 6, 7] := by decide
-example : (tbWrite exCfg (init exCfg) 2 1 3 0).rows = [5, 6, 1] := by decide
+/-- **row_access_out_of_range.** A row that does not exist cannot be accessed: for an index below 0 or at or
+beyond the depth, `mem[index]` raises `IndexError` (there is no negative indexing and no wrap-around), so neither
+`ctx.get` nor `ctx.set` happens and the state is untouched. -/
+theorem row_access_out_of_range (c : Cfg) (s : Mem.State) (index : Int) (h : index < 0 ∨ (c.depth : Int) ≤ index) :
+    tbGet c s index = .error "IndexError" ∧ ∀ start stop v, tbSet c s index start stop v = .error "IndexError" := by
+  have hr := rowIndex_error c.depth index (by omega)
+  constructor
+  · unfold tbGet; rw [hr]
+  · intro start stop v
+    unfold tbSet; rw [hr]
+
+example : tbSet exCfg (init exCfg) 1 1 3 (-1) = .ok ⟨[5, 6, 7], [0, 0, 0], [false], [false]⟩ := rfl
+example : (tbSet exCfg (init exCfg) 2 1 3 0).map (·.rows) = .ok [5, 6, 1] := rfl
+example : tbGet exCfg (init exCfg) 2 = .ok 7 := rfl
 example : combRead exCfg (tbWrite exCfg (init exCfg) 2 1 3 0) ⟨2, true⟩ = 1 := by decide
+-- depth 3: rows 3 and -1 do not exist
+example : tbGet exCfg (init exCfg) 3 = .error "IndexError" := rfl
+example : tbSet exCfg (init exCfg) (-1) 0 4 9 = .error "IndexError" := rfl
+example : rowIndex exCfg.depth 2 = .ok 2 := rfl
 
 /-! ## Refinement -/
 
-/-- **model_refines_rows** (one event). Under the hypotheses the property states — no two ports writing the same
-bit of one row at one event, capturing reads in range — an event of the simulator is exactly one step of the
+/-- **model_refines_rows** (one event). Where the array of rows has one reading — no two ports writing the same
+bit of one row at one event (`NoCollision`; not an exclusion of the property text, see the file header), capturing
+reads in range (`ReadsInRange`; the property's exclusion) — an event of the simulator is exactly one step of the
 array of rows: the rows after the event and what every synchronous read port shows. -/
 theorem model_refines_rows (c : Cfg) (s : Mem.State) (inp : Inputs) (e : Event) (hwf : WF c) (hinv : Inv c s)
     (hin : InputsOk c inp) (hnc : NoCollision c s.clk inp e) (hrr : ReadsInRange c s.clk inp e) :
@@ -453,12 +518,6 @@ example : Vals exSigned ⟨[-4, 3], [0], [true], [false]⟩ := by
     have : a = 0 := by simp at ha; omega
     subst this; decide
 
-/-- the hypotheses along a run -/
-def RunOk (c : Cfg) : Mem.State → List (Inputs × Event) → Prop
-  | _, [] => True
-  | s, (inp, e) :: rest =>
-    InputsOk c inp ∧ NoCollision c s.clk inp e ∧ ReadsInRange c s.clk inp e ∧ RunOk c (step c s inp e) rest
-
 /-- the array of rows driven by the same stimulus (it has to remember the clock levels to know the active edges) -/
 def specRun (c : Cfg) : MemRows.State → List Bool → List (Inputs × Event) → MemRows.State
   | sp, _, [] => sp
@@ -477,29 +536,42 @@ theorem model_refines_rows_run (c : Cfg) (hwf : WF c) (evs : List (Inputs × Eve
     rw [ih (step c s inp e) (Mem.inv_step c s inp e hinv) hrest, refine_step c s inp e hwf hinv hin hnc hrr]
     rfl
 
--- non-vacuity of the hypotheses on the example event, and the run theorem's conclusion on a two-event run
-theorem exNoCollision : NoCollision exCfg (init exCfg).clk exInp exEv := by
-  intro k1 k2 w1 w2 hne h1 h2 a i _ hh
-  have hk : ∀ k w, activeWrite exCfg (init exCfg).clk exInp exEv k = some w → (k = 0 ∨ k = 1) := by
-    intro k w h
-    unfold activeWrite at h
-    by_cases hk : k < exCfg.wrs.length
-    · have : k < 2 := hk
-      omega
-    · rw [if_neg (fun h' => hk h'.1)] at h; cases h
-  have hw1 : ∀ w, activeWrite exCfg (init exCfg).clk exInp exEv 1 = some w → ∀ a i, w.hits a i = false := by
-    intro w h a i
-    have : activeWrite exCfg (init exCfg).clk exInp exEv 1 = some ⟨2, 4, 0, [true, true, true, true]⟩ := by decide
-    rw [this] at h; cases h
-    simp [Write.hits]
-  rcases hk k1 w1 h1 with rfl | rfl <;> rcases hk k2 w2 h2 with rfl | rfl
-  · exact hne rfl
-  · rw [hw1 w2 h2 a i] at hh; cases hh.2
-  · rw [hw1 w1 h1 a i] at hh; cases hh.1
-  · exact hne rfl
+/-! ## Non-vacuity of the refinement hypotheses (tests on literals, through the Boolean checkers of
+Proofs/MemoryCtor.lean) -/
 
-example : absState exCfg (run exCfg (init exCfg) [(exInp, exEv), (exInp, ⟨[false], [false]⟩)]) =
-    specRun exCfg (absState exCfg (init exCfg)) (init exCfg).clk [(exInp, exEv), (exInp, ⟨[false], [false]⟩)] := by
-  decide
+theorem exNoCollision : NoCollision exCfg (init exCfg).clk exInp exEv := noCollision_of_check _ _ _ _ (by decide +kernel)
+theorem exReadsInRange : ReadsInRange exCfg (init exCfg).clk exInp exEv := readsInRange_of_check _ _ _ _ (by decide +kernel)
+
+example : absState exCfg (step exCfg (init exCfg) exInp exEv) =
+    MemRows.step (absState exCfg (init exCfg)) (edgeOf exCfg (init exCfg).clk exInp exEv) :=
+  model_refines_rows exCfg (init exCfg) exInp exEv exWF exInv exInputsOk exNoCollision exReadsInRange
+
+/-- a run of five events (rising and falling edges, reset levels changing, both write ports writing at one edge,
+transparent and non-transparent captures, a disabled read port) -/
+def exRun : List (Inputs × Event) :=
+  [ (exInp, exEv),
+    (exInp, ⟨[false], [false]⟩),
+    -- both ports write at this edge, to different rows (0 and 2): no collision
+    (⟨[⟨0, 3, 1⟩, ⟨2, 12, 1⟩], [⟨0, true⟩, ⟨2, true⟩, ⟨2, true⟩]⟩, ⟨[true], [false]⟩),
+    (exInp, ⟨[false], [true]⟩),
+    -- both ports write row 1 at this edge, port 0 its lower granule only … and port 1 is disabled: no collision
+    (⟨[⟨1, 1, 1⟩, ⟨1, 15, 0⟩], [⟨1, true⟩, ⟨3, true⟩, ⟨0, false⟩]⟩, ⟨[true], [true]⟩) ]
+
+theorem exRunOk : RunOk exCfg (init exCfg) exRun := runOk_of_check _ _ _ (by decide +kernel)
+
+-- NoCollision at a later event of the run (the third: two active ports), in the state the run has reached
+example : NoCollision exCfg (run exCfg (init exCfg) (exRun.take 2)).clk
+    ⟨[⟨0, 3, 1⟩, ⟨2, 12, 1⟩], [⟨0, true⟩, ⟨2, true⟩, ⟨2, true⟩]⟩ ⟨[true], [false]⟩ :=
+  noCollision_of_check _ _ _ _ (by decide +kernel)
+
+example : absState exCfg (run exCfg (init exCfg) exRun) = specRun exCfg (absState exCfg (init exCfg)) (init exCfg).clk exRun :=
+  model_refines_rows_run exCfg exWF exRun (init exCfg) exInv exRunOk
+
+example : (run exCfg (init exCfg) exRun).rows = [7, 9, 12] ∧ (run exCfg (init exCfg) exRun).rdata = [9, 0, 7] := by
+  decide +kernel
+
+-- and a collision is really excluded: both ports writing bit 0 of row 1 fails the check
+example : noCollisionB exCfg (init exCfg).clk ⟨[⟨1, 10, 3⟩, ⟨1, 15, 1⟩], [⟨1, false⟩, ⟨1, true⟩, ⟨1, false⟩]⟩ exEv = false := by
+  decide +kernel
 
 end Amaranth.C11
